@@ -102,9 +102,58 @@ def check_long(case):
     return ["long_path", "cyclic" if cyclic else "acyclic", "neg", "p_%d" % p]
 
 
+INT_DTYPES = {"int8": np.int8, "int16": np.int16, "int32": np.int32, "int64": np.int64}
+
+
+def check_twins(case):
+    """A signed-integer matrix whose only non-zero weights are the dtype's minimum (edges!), followed - in the same
+    process - by the float matrix with the very same bytes (all entries +-0.0: no edge at all), and the other way round.
+    Each must be judged by its own non-zero pattern."""
+    import sempler
+    import sempler.utils as utils
+    dt = INT_DTYPES[case["dtype"]]
+    lo = np.iinfo(dt).min
+    pattern = np.array(case["pattern"], dtype=bool)
+    p = len(pattern)
+    M_int = np.where(pattern, lo, 0).astype(dt)
+    twins = [("int", M_int)]
+    if case["dtype"] == "int64":
+        twins.append(("float", M_int.view(np.float64).copy()))
+    elif case["dtype"] == "int32":
+        twins.append(("float", M_int.view(np.float32).copy()))
+    elif case["dtype"] == "int16":
+        twins.append(("float", M_int.view(np.float16).copy()))
+    order = twins if case.get("int_first", True) else twins[::-1]
+    lab = ["extreme_int_" + case["dtype"], "neg"]
+    for rnd in range(2):
+        for name, M in order:
+            rows = G.rows_from_matrix(M)
+            cyclic = G.has_cycle_dfs(rows)
+            what = "%s matrix %s (%s)" % (name, M.tolist(), M.dtype)
+            got = must(lib(utils.is_dag, M), "is_dag(%s)" % what)
+            if bool(got) != (not cyclic):
+                raise Violation("is_dag_wrong", "is_dag returned %r for the %s which is %s" % (got, what, "cyclic" if cyclic else "acyclic"))
+            o = lib(utils.topological_ordering, M)
+            g = lib(sempler.LGANM, M.astype(float) if name == "int" and case["dtype"] != "int64" else M, np.zeros(p), np.ones(p))
+            if cyclic:
+                must_raise(o, ValueError, "topological_ordering(%s)" % what)
+                must_raise(g, ValueError, "LGANM(%s)" % what)
+            else:
+                order_ = [int(x) for x in must(o, "topological_ordering(%s)" % what)]
+                pos = {v: k for k, v in enumerate(order_)}
+                if sorted(order_) != list(range(p)) or any(M[i, j] != 0 and pos[i] >= pos[j] for i in range(p) for j in range(p)):
+                    raise Violation("ordering_edge_backward", "ordering %r is not a topological order of the %s" % (order_, what))
+                must(g, "LGANM(%s)" % what)
+        if len(order) > 1:
+            lab.append("byte_twins")
+    return sorted(set(lab + ["cyclic" if G.has_cycle_dfs(G.rows_from_matrix(M_int)) else "acyclic"]))
+
+
 def check(case):
     if case["sub"] == "long_path":
         return check_long(case)
+    if case["sub"] == "byte_twins":
+        return check_twins(case)
     import sempler
     import sempler.utils as utils
     import sempler.noise as noise
@@ -260,7 +309,7 @@ def _hyp(acc, job):
 
 
 def plan(tier, seed):
-    jobs = [{"sub": "exh_p123", "seed": seed, "cost": 5}]
+    jobs = [{"sub": "exh_p123", "seed": seed, "cost": 5}, {"sub": "byte_twins", "seed": seed, "cost": 3}]
     for p in ([1100, 1500, 2500] if tier == "quick" else [1100, 1500, 2500, 4000, 6000]):
         jobs.append({"sub": "long_path", "seed": seed, "p": p, "cost": 9 + p // 500})
     n4 = 3 ** 12
@@ -279,6 +328,22 @@ def run(job):
     acc = Acc(job["sub"])
     if job["sub"] == "exh_p123":
         _exh_small(acc)
+    elif job["sub"] == "byte_twins":
+        # every 0/1 pattern on 1..3 nodes (p = 3: a seed-dependent half), weights = the integer dtype's minimum
+        for p in (1, 2, 3):
+            for n, bits in enumerate(itertools.product((0, 1), repeat=p * p)):
+                if p == 3 and (n + job["seed"]) % 2:
+                    continue
+                pattern = [list(bits[i * p:(i + 1) * p]) for i in range(p)]
+                for dt in ("int8", "int16", "int32", "int64"):
+                    case = {"sub": "byte_twins", "pattern": pattern, "dtype": dt, "int_first": bool((n + len(dt)) % 2)}
+                    try:
+                        lab = check(case)
+                        acc.record(case, lab, True, by_construction=True, sample=(n % 97 == 5 and dt == "int64"))
+                    except Violation as v:
+                        acc.record(case, [], False)
+                        acc.violation(case, v)
+        acc.exhaustive = False
     elif job["sub"] == "long_path":
         p = job["p"]
         a = next(x for x in range(p // 3 + job["seed"] % 7, p) if np.gcd(x, p) == 1)
